@@ -187,6 +187,13 @@ theorem C20_call_census :
       "tracker: pl.on_transaction_input", "tracker: pl.on_transaction_output",
       "tracker: pl.on_transaction_start"] := by rfl
 
+/-- generated-table obligation (file census): the only files of vls-core/src and vls-protocol-signer/src outside the
+scanned ones (tests excluded) that contain a lock expression are the hook's tap, the manual clock, the mocks and the
+`MultiSigner` front end (reviewed: its `nodes` mutex is outermost, its `with_channel` copies `Node::with_channel`) -/
+theorem C20_file_census :
+    unscannedLockFiles = [("vls-core/src/signer/multi_signer.rs", 8), ("vls-core/src/util/clock.rs", 2),
+      ("vls-core/src/util/mocks.rs", 1), ("vls-core/src/verif_sync.rs", 4)] := by decide
+
 /-- generated-table obligation: the sweep-signing arms validate their destination against the wallet/allowlist
 (node_state) while the slot is held — the edge the validator calls contribute (it was missing from these rows
 before the resolution followed calls on validator objects) -/
